@@ -170,7 +170,7 @@ func (w *world) candidates(r *coqfmt.Rng, p policy, allowNew bool) []cand {
 			continue
 		}
 		if t.pc != "offer" {
-			if t.pc == "ctl-send" && !t.cancelled && !quietCtl {
+			if t.pc == "ctl-send" && !quietCtl {
 				// sending now would make a second arm of the monitor's select ready
 			} else if len(w.readyArms(t)) > 0 {
 				add(label{K: "act", Tid: tid}, p.act)
